@@ -77,7 +77,7 @@ Theorem reserved_eq_emitted cfg ls1 ls2 (s : sized) bs :
   gen_bytes cfg ls2 s = Ok bs ->
   Z.of_nat (length bs) = s_size s.
 Proof.
-  unfold gen_bytes, line_size. destruct (p_stmt (s_line s)) as [n|n e|w e vals|b|c v|a|ips|e z|z|e|]; cbn [is_byte_stmt];
+  unfold gen_bytes, line_size. destruct (p_stmt (s_line s)) as [n|n e|w e vals|b|c v|a|ips|steps|e z|z|e|]; cbn [is_byte_stmt];
     intros Hb Hsz Hg; try discriminate.
   - (* SData *)
     destruct (mapM _ vals) as [vs| |] eqn:Em; cbn [bind] in Hg; try discriminate.
@@ -96,6 +96,14 @@ Proof.
     rewrite zerountil_size_spec. lia.
   - (* SInstr *)
     injection Hsz as Hs. apply instr_bytes_length in Hg. rewrite Hg. exact Hs.
+  - (* SInstrs *)
+    injection Hsz as Hs. rewrite <- Hs. clear Hs Hb.
+    revert bs Hg. generalize (s_addr s) as a. induction steps as [|ips rest IH]; intros a bs Hg; cbn [instrs_bytes fold_right] in *.
+    + injection Hg as <-. reflexivity.
+    + destruct (instr_bytes _ a ips) as [b| |] eqn:E1; cbn [bind] in Hg; try discriminate.
+      destruct (instrs_bytes _ (a + instr_size ips) rest) as [b2| |] eqn:E2; cbn [bind] in Hg; try discriminate.
+      injection Hg as <-. rewrite app_length, Nat2Z.inj_add.
+      apply instr_bytes_length in E1. rewrite E1. f_equal. eapply IH. exact E2.
 Qed.
 
 (* ------------------------------------------------------------------------------------------ *)
